@@ -131,7 +131,7 @@ REG.contract(
 
 ASSUMES = ["A-PY", "A-INST", "A-DJ"]
 NOT_COVERED = [
-    "SlotNode._resolve_slot_context, render_func's layer insertion, snapshot_context, ComponentNode.render and Component._render_impl (Context restored) are not yet under contract",
+    "SlotNode.render as a whole, snapshot_context and Component._render_impl (Context restored after the whole render) are not under contract; the whole-render statement is covered only by the bounded scoping stand-in",
     "get_last_index's contract is assumed (generic helper with a callable parameter)",
     "Django's own tag semantics; the 2-run non-interference statement over whole programs",
 ]
@@ -386,3 +386,121 @@ def _bounded_scoping(tier, repo):
 
 REG.bounded_check("bounded#templates_and_fills_see_what_the_mode_prescribes", "C03", _bounded_scoping,
                   note="SlotNode.render / ComponentNode.render / _render_impl are not under contract: 200 pages (with / for wrappers around the component tag and inside the fill, the component nested in its own fill) x 2 outer contexts x 2 modes are rendered for real and compared with an environment model of the property; the caller's Context must be left as found.  Known finding F-C03a (loop variables visible in isolated mode) is tagged by the harness")
+
+
+# ================================================================================================ ComponentNode.render
+# {% component %}: from the property - with the `only` flag or in isolated mode the component is rendered with an ISOLATED copy of
+# the Context (what that copy can show is make_isolated_context_copy's contract above), otherwise with the current Context; in
+# both cases the component remembers the Context AT THE TAG as its outer context (the lexical scope of its fills), the tag's
+# arguments and fills are handed through unchanged, and nothing is rendered while an enclosing tag is only collecting fills.
+CNODE = Obj("ComponentNode")
+CCLS = Obj("ComponentClassObj")
+FILLS = Obj("SlotFills")
+ARGS_T = Seq(Any_)
+KWARGS_T = Dict(Str, Any_)
+
+
+def _cn_extracting(ctx):
+    return ops.uf("context_is_extracting_fill", I, z3.BoolSort())(ctx)
+
+
+def _cn_only(n):
+    return ops.uf("component_node_only_flag", CNODE.sort(), z3.BoolSort())(n)
+
+
+def _cn_behavior(n):
+    return ops.uf("component_node_registry_context_behavior", CNODE.sort(), S)(n)
+
+
+REG.stub("django_components.slots:_is_extracting_fill", lambda run, args, kwargs, node: Val(TBool, _cn_extracting(args[0].t)))
+REG.stub(("getattr", "ComponentNode", "name"), lambda run, obj, node: Val(TStr, ops.uf("component_node_name", CNODE.sort(), S)(obj.t)))
+REG.stub(("getattr", "ComponentNode", "nodelist"), lambda run, obj, node: Conc(("obj_kind", "cn_nodelist")))
+REG.stub(("getattr", "ComponentNode", "registry"), lambda run, obj, node: Conc(("obj_kind", "cn_registry", obj)))
+REG.stub(("getattr", "ComponentNode", "flags"), lambda run, obj, node: Conc(("obj_kind", "cn_flags", obj)))
+
+
+def _flags_getitem(run, base, key, node):
+    k = z3.simplify(run.coerce(key, TStr).t)
+    if not (z3.is_string_value(k) and k.as_string() == "only"):
+        raise EngineError(f"flag {k}")
+    return Val(TBool, _cn_only(base.obj[2].t))
+
+
+REG.stub(("getitem", "conc:obj_kind:cn_flags"), _flags_getitem)
+REG.stub(("getattr", "conc:obj_kind:cn_registry", "settings"), lambda run, obj, node: Conc(("obj_kind", "cn_settings", obj.obj[2])))
+REG.stub(("getattr", "conc:obj_kind:cn_settings", "context_behavior"), lambda run, obj, node: Val(TStr, _cn_behavior(obj.obj[2].t)))
+
+
+def _registry_get(run, obj, args, kwargs, node):
+    """self.registry.get(name): the registered class, or NotRegistered (C15)"""
+    from pyvc.interp import ExcVal, PyRaise
+    if run.choose(2, None) == 1:
+        raise PyRaise(ExcVal("NotRegistered", [], site="registry.get"))
+    return Val(CCLS, z3.FreshConst(CCLS.sort(), "component_cls"))
+
+
+REG.stub(("method", "conc:obj_kind:cn_registry", "get"), _registry_get)
+
+
+def _resolve_fills_stub(run, args, kwargs, node):
+    """resolve_fills(context, nodelist, name) - its own contract is C01; here: some fills, or an error from the fill tags"""
+    from pyvc.interp import ExcVal, PyRaise
+    if run.choose(2, None) == 1:
+        raise PyRaise(ExcVal("Any", [], site="resolve_fills (fill tags / user code)"))
+    f = Val(FILLS, z3.FreshConst(FILLS.sort(), "slot_fills"))
+    run.ghost["fills"] = f
+    return f
+
+
+def _construct_component(run, args, kwargs, node):
+    run.ghost["outer_context_given"] = kwargs["outer_context"]
+    return run.alloc("Component")
+
+
+def _component_render(run, obj, args, kwargs, node):
+    """component._render(...): the whole component render (user code inside).  RELY: leaves the Context it is given as found."""
+    from pyvc.interp import ExcVal, PyRaise
+    for k in ("context", "args", "kwargs", "slots", "render_dependencies"):
+        run.ghost["render_" + k] = kwargs[k]
+    if run.choose(2, None) == 1:
+        raise PyRaise(ExcVal("Any", [], site="component._render (user code)"))
+    return Val(TStr, z3.FreshConst(S, "component_output"))
+
+
+REG.stub(("method", "Ref_Component", "_render"), _component_render)
+
+
+def _cn_isolated(c):
+    n = c.old("self").t
+    return z3.Or(_cn_only(n), _cn_behavior(n) == z3.StringVal("isolated"))
+
+
+def _gh(c, name, ty):
+    return c.run.coerce(c.ghost[name], ty).t if name in c.ghost else ty.fresh("never_" + name)
+
+
+def _cn_post(c):
+    ctx = c.old("context").t
+    ex = _cn_extracting(ctx)
+    from pyvc.types import TRef
+    rctx = _gh(c, "render_context", TRef(CTX))
+    return z3.And(
+        z3.Implies(ex, c["result"].t == z3.StringVal("")),
+        z3.Implies(z3.Not(ex), z3.And(
+            _gh(c, "outer_context_given", TRef(CTX)) == ctx,                                   # lexical scope of the fills
+            z3.If(_cn_isolated(c), z3.And(rctx >= z3.Int("next_ref0"), rctx != ctx), rctx == ctx),
+            _gh(c, "render_args", ARGS_T) == c.old("args").t, _gh(c, "render_kwargs", KWARGS_T) == c.old("kwargs").t,
+            _gh(c, "render_slots", FILLS) == _gh(c, "fills", FILLS),
+            z3.Not(_gh(c, "render_render_dependencies", TBool)))))
+
+
+REG.contract(
+    "django_components.component:ComponentNode.render", prop="C03",
+    types={"context": Ref(CTX), "args": ARGS_T, "kwargs": KWARGS_T}, result=Str, self_type=CNODE,
+    calls={"resolve_fills": _resolve_fills_stub, "component_cls": _construct_component},
+    requires=[lambda c: c["context"].t > 0, lambda c: z3.Length(D(c, "context")) >= 1],
+    modifies=[f"{CTX}.dicts", f"{CTX}.render_context"],
+    raises={"Any": None, "NotRegistered": None},
+    ensures={"isolated_copy_exactly_with_only_or_isolated_mode_and_arguments_handed_through": _cn_post,
+             "callers_context_unchanged": lambda c: D(c, "context") == D(c, "context", True)},
+)
